@@ -9,7 +9,8 @@
              the observed final environment (descriptor numbers included), the
              observed outcome, exactly the observed output, and every intermediate
              observation.
-   spec_ok : Spec/CtxSpec.v holds of the OBSERVED values: restore_eqb before/after,
+   spec_ok : Spec/CtxSpec.v holds of the OBSERVED values: restore_eqb before/after, the same between the
+             sites before and after every `with` region of the script (regions_ok),
              the reference terminal after replaying the real output (cursor visible,
              main screen active and - unless a CursorAwareWindow drew on it -
              untouched), and flags unchanged at every observation outside a
@@ -161,7 +162,55 @@ Definition model_ok (c : case) : bool :=
       && match execs (term0 (c_h c) (c_w c)) (c_out c) with Some _ => true | None => false end
   end.
 
+(* ---- per-region restoration, judged on the observations --------------------------------
+   Wherever the script has  site a ; with M: body ; site b  (in any body that is not
+   repeated), the environment observed at b must be the one observed at a, up to the trigger
+   pipes created inside the region: leaving M restored what entering M changed, whatever
+   happened around it (re-entered objects, regions nested in other regions). *)
+Fixpoint trig_count (s : sop) : nat :=
+  match s with
+  | STrigCreate _ => 1
+  | SRepeat k body => k * fold_right (fun x n => trig_count x + n) 0 body
+  | SWith _ body => fold_right (fun x n => trig_count x + n) 0 body
+  | _ => 0
+  end.
+
+Fixpoint brackets (s : sop) : list (nat * nat * nat) :=
+  match s with
+  | SWith _ body =>
+      (fix go (l : list sop) : list (nat * nat * nat) :=
+         match l with
+         | [] => []
+         | x :: rest =>
+             (match x, rest with
+              | SSite a, SWith _ inner :: SSite b :: _ =>
+                  [(a, b, fold_right (fun y n => trig_count y + n) 0 inner)]
+              | _, _ => []
+              end) ++ brackets x ++ go rest
+         end) body
+  | _ => []
+  end.
+
+Definition top_brackets (l : list sop) : list (nat * nat * nat) := brackets (SWith MCbreak l).
+
+Definition site_snaps (id : nat) (snaps : list snap) : list snap :=
+  filter (fun s => lbl_eqb (sn_lbl s) (NUser, id, 0)) snaps.
+
+Definition region_restored (ntrig : nat) (a b : snap) : bool :=
+  let x := sn_obs a in let y := sn_obs b in
+  tty_eqb (o_tty x) (o_tty y) && flags_eqb (o_flags x) (o_flags y) && handler_eqb (o_handler x) (o_handler y)
+  && (sn_partial a || sn_partial b || opt_eqb Nat.eqb (o_wakeup x) (o_wakeup y))
+  && subset (o_fds x) (o_fds y) && (length (o_fds y) =? length (o_fds x) + 2 * ntrig).
+
+Definition regions_ok (c : case) : bool :=
+  forallb (fun '(a, b, n) =>
+             match site_snaps a (c_snaps c), site_snaps b (c_snaps c) with
+             | [sa], [sb] => region_restored n sa sb
+             | _, _ => true                     (* not reached (cut before), or ambiguous *)
+             end) (top_brackets (c_prog c)).
+
 Definition spec_ok (c : case) : bool :=
+  regions_ok c &&
   restore_eqb (c_ntrig c) (c_before c) (c_after c)
   && match execs (term0 (c_h c) (c_w c)) (c_out c) with
      | Some t' => term_restoredb (negb (existsb has_cursor_aware (c_prog c))) (term0 (c_h c) (c_w c)) t'
